@@ -65,7 +65,7 @@ void trace_stiff() {
   Unit u(std::string("stiff_") + hname<H>() + "_" + (A == StiffnessTensorAlterationCharacteristic::ALTERED ? "A" : "U") + "_" +
          cname<C>());
   const Sym E1 = verif::scalar_input("E1", 150.), E2 = verif::scalar_input("E2", 70.), E3 = verif::scalar_input("E3", 40.),
-            n12 = verif::scalar_input("n12", 0.31), n23 = verif::scalar_input("n23", 0.23), n13 = verif::scalar_input("n13", 0.17),
+            n12 = verif::scalar_input("nu12", 0.31), n23 = verif::scalar_input("nu23", 0.23), n13 = verif::scalar_input("nu13", 0.17),
             G12 = verif::scalar_input("G12", 30.), G23 = verif::scalar_input("G23", 20.), G13 = verif::scalar_input("G13", 10.);
   st2tost2<N, Sym> Cm;
   computeOrthotropicStiffnessTensor<H, A, C>(Cm, E1, E2, E3, n12, n23, n13, G12, G23, G13);
